@@ -8,8 +8,15 @@
 (*               view into the original tensor, except for the case when   *)
 (*               ``indices`` is a list" (+ example "not a view, won't       *)
 (*               modify x"); a full integer index gives a scalar.          *)
+(*               Index ARRAYS (integer / boolean ndarrays or tensors; release *)
+(*               notes 0.7.0: "natively support almost all kinds of Numpy   *)
+(*               fancy indexing") select by the NumPy rules; whether the    *)
+(*               result shares memory is not stated for them ("unspec").    *)
 (*  [T.setitem]  NumpyTensor.__setitem__: scalar / array-like / tensor;     *)
 (*               "The Numpy assignment and broadcasting rules apply".      *)
+(*  [S.pointer]  NumpyTensorSpace.element(data_ptr=, order=): "Elements can  *)
+(*               also be constructed from a data pointer, resulting again in*)
+(*               shared memory" (contiguous array, order 'C' or 'F').       *)
 (*  [S.element]  NumpyTensorSpace.element: "a copy is avoided whenever      *)
 (*               possible. This requires correct shape and dtype, and if    *)
 (*               order is provided, also contiguousness in that ordering.  *)
@@ -93,18 +100,27 @@ SliceSet(n, a, b, s) ==
 IInt(i)      == [k |-> "int",  a |-> i, b |-> 0, s |-> 0, l |-> <<>>]
 ISl(a, b, s) == [k |-> "sl",   a |-> a, b |-> b, s |-> s, l |-> <<>>]
 IList(l)     == [k |-> "list", a |-> 0, b |-> 0, s |-> 0, l |-> l]
+IArr(l)      == [k |-> "arr",  a |-> 0, b |-> 0, s |-> 0, l |-> l]      \* integer index ARRAY on one axis
+IMask(l)     == [k |-> "mask", a |-> 0, b |-> 0, s |-> 0, l |-> l]      \* boolean array (flags 0 / 1) on one axis
+IMaskAll(l)  == [k |-> "maskall", a |-> 0, b |-> 0, s |-> 0, l |-> l]   \* boolean array of the shape of the whole object
 IFull        == ISl(NoneTok, NoneTok, 1)
 
 NormI(n, i) == IF i < 0 THEN i + n ELSE i
+Ones(l) == SelectSeq([k \in 1..Len(l) |-> k - 1], LAMBDA p : l[p + 1] = 1)   \* 0-based positions of the set flags
 AxisPos(n, e) ==
   CASE e.k = "int"  -> <<NormI(n, e.a)>>
     [] e.k = "sl"   -> PySlice(n, e.a, e.b, e.s)
-    [] e.k = "list" -> [k \in 1..Len(e.l) |-> NormI(n, e.l[k])]
+    [] e.k \in {"list", "arr"} -> [k \in 1..Len(e.l) |-> NormI(n, e.l[k])]
+    [] e.k = "mask" -> Ones(e.l)
 
 AxisOk(n, e) ==
   CASE e.k = "int"  -> e.a >= -n /\ e.a < n
     [] e.k = "sl"   -> e.s # 0
-    [] e.k = "list" -> Len(e.l) >= 1 /\ \A k \in 1..Len(e.l) : e.l[k] >= -n /\ e.l[k] < n
+    [] e.k \in {"list", "arr"} -> Len(e.l) >= 1 /\ \A k \in 1..Len(e.l) : e.l[k] >= -n /\ e.l[k] < n
+    [] e.k = "mask" -> Len(e.l) = n /\ \A k \in 1..Len(e.l) : e.l[k] \in {0, 1}
+    [] OTHER -> FALSE
+IsAdvE(e) == e.k \in {"list", "arr", "mask"}
+IsArrE(e) == e.k \in {"arr", "mask", "maskall"}
 
 Size(shp) == IF Len(shp) = 0 THEN 1 ELSE IF Len(shp) = 1 THEN shp[1] ELSE shp[1] * shp[2]
 Pad(shp, idx) == idx \o [i \in 1..(Len(shp) - Len(idx)) |-> IFull]
@@ -112,29 +128,38 @@ Pad(shp, idx) == idx \o [i \in 1..(Len(shp) - Len(idx)) |-> IFull]
 IdxOk(shp, idx) ==
   /\ Len(shp) \in {1, 2}
   /\ Len(idx) >= 1 /\ Len(idx) <= Len(shp)
-  /\ \A i \in 1..Len(idx) : AxisOk(shp[i], idx[i])
-  /\ (Len(idx) = 2 /\ idx[1].k = "list" /\ idx[2].k = "list") => Len(idx[1].l) = Len(idx[2].l)
+  /\ IF idx[1].k = "maskall"
+       THEN Len(idx) = 1 /\ Len(idx[1].l) = Size(shp) /\ \A k \in 1..Len(idx[1].l) : idx[1].l[k] \in {0, 1}
+       ELSE /\ \A i \in 1..Len(idx) : AxisOk(shp[i], idx[i])
+            /\ (Len(idx) = 2 /\ IsAdvE(idx[1]) /\ IsAdvE(idx[2])) =>
+                  Len(AxisPos(shp[1], idx[1])) = Len(AxisPos(shp[2], idx[2]))
 
 \* Selection: positions (1-based, in the indexed object's own C order) in the C order of the result, the result shape
-\* (<<>> = scalar) and whether the index is "advanced" (contains a list).  NumPy rules: entries address their axis;
-\* two lists are paired point-wise; one list combines with the other axis as an outer product in place.
+\* (<<>> = scalar), whether the index is "advanced" (contains a list or an index array) and whether it contains an
+\* index ARRAY.  NumPy rules: entries address their axis; two advanced entries are paired point-wise; one advanced
+\* entry combines with the other axis as an outer product in place; a boolean array of the whole shape selects the
+\* flagged entries in C order.
 Sel(shp, idx) ==
+  IF idx # <<>> /\ idx[1].k = "maskall" THEN
+    LET p == Ones(idx[1].l) IN [pos |-> [k \in 1..Len(p) |-> p[k] + 1], shp |-> <<Len(p)>>, adv |-> TRUE, arr |-> TRUE]
+  ELSE
   LET f == Pad(shp, idx) IN
   IF Len(shp) = 1 THEN
     LET p == AxisPos(shp[1], f[1]) IN
       [pos |-> [k \in 1..Len(p) |-> p[k] + 1],
        shp |-> IF f[1].k = "int" THEN <<>> ELSE <<Len(p)>>,
-       adv |-> f[1].k = "list"]
+       adv |-> IsAdvE(f[1]), arr |-> IsArrE(f[1])]
   ELSE
     LET p1 == AxisPos(shp[1], f[1])
         p2 == AxisPos(shp[2], f[2])
-    IN  IF f[1].k = "list" /\ f[2].k = "list" THEN
-          [pos |-> [k \in 1..Len(p1) |-> p1[k] * shp[2] + p2[k] + 1], shp |-> <<Len(p1)>>, adv |-> TRUE]
+    IN  IF IsAdvE(f[1]) /\ IsAdvE(f[2]) THEN
+          [pos |-> [k \in 1..Len(p1) |-> p1[k] * shp[2] + p2[k] + 1], shp |-> <<Len(p1)>>, adv |-> TRUE,
+           arr |-> IsArrE(f[1]) \/ IsArrE(f[2])]
         ELSE
           [pos |-> [k \in 1..(Len(p1) * Len(p2)) |->
                       p1[((k - 1) \div Len(p2)) + 1] * shp[2] + p2[((k - 1) % Len(p2)) + 1] + 1],
            shp |-> (IF f[1].k = "int" THEN <<>> ELSE <<Len(p1)>>) \o (IF f[2].k = "int" THEN <<>> ELSE <<Len(p2)>>),
-           adv |-> f[1].k = "list" \/ f[2].k = "list"]
+           adv |-> IsAdvE(f[1]) \/ IsAdvE(f[2]), arr |-> IsArrE(f[1]) \/ IsArrE(f[2])]
 
 (* ------------------------------ objects -------------------------------- *)
 \* uniform record:  k "leaf"|"prod" ; ty "elem"|"arr" ; sk "tensor"|"dtensor"|"discr"|"pspace" (space kind of an
@@ -358,7 +383,7 @@ Legal(st, A) ==
               LET d == Descend(st.objs, A.x, A.idx) t == st.objs[d.o] IN
                 /\ Len(A.idx) >= 1 /\ d.ok
                 /\ IF t.k = "leaf" THEN d.o # A.x /\ IdxOk(t.shp, d.idx)
-                   ELSE /\ Len(d.idx) = 1 /\ AxisOk(Len(t.parts), d.idx[1])
+                   ELSE /\ Len(d.idx) = 1 /\ d.idx[1].k \in {"int", "sl", "list"} /\ AxisOk(Len(t.parts), d.idx[1])
                         /\ Len(AxisPos(Len(t.parts), d.idx[1])) >= 1
     [] A.op = "setitem" ->
          /\ IsObj(st, A.x)
@@ -373,7 +398,7 @@ Legal(st, A) ==
                      /\ d.o # A.x /\ IdxOk(t.shp, d.idx) /\ ValOk(st, A.v, t, Sel(t.shp, d.idx))
                      /\ NoDup(Sel(t.shp, d.idx).pos)
                    ELSE
-                     /\ Len(d.idx) = 1 /\ AxisOk(Len(t.parts), d.idx[1])
+                     /\ Len(d.idx) = 1 /\ d.idx[1].k \in {"int", "sl", "list"} /\ AxisOk(Len(t.parts), d.idx[1])
                      \* z[i, ..., e] = v: nothing describes a list or one-value-per-part at the end of a tuple index
                      /\ (Len(A.idx) > 1 => d.idx[1].k # "list" /\ A.v.k # "perpart")
                      /\ LET ps == AxisPos(Len(t.parts), d.idx[1]) IN
@@ -395,16 +420,21 @@ Legal(st, A) ==
                                [] OTHER -> FALSE
     [] A.op = "copy" -> /\ IsElem(st, A.x) /\ A.how \in {"copy", "copy.copy", "astype", "astype_other"}
                         /\ (A.how \in {"astype", "astype_other"} => x.k = "leaf")
-    [] A.op = "asarray" -> IsElem(st, A.x) /\ (x.k = "leaf" \/ IsPower(st, A.x))
+    [] A.op = "asarray" -> /\ IsElem(st, A.x) /\ (x.k = "leaf" \/ IsPower(st, A.x))
+                           /\ (A.how \in {"np.asarray(dtype=same)", "np.asarray(dtype=other)"} => x.k = "leaf")
     [] A.op = "asarray_out" ->
          /\ IsElem(st, A.x) /\ x.k = "leaf" /\ IsLeaf(st, A.y) /\ x.dt = "same"
          /\ LET y == st.objs[A.y] IN
               /\ y.ty = "arr" /\ y.dt = "same" /\ y.cx = x.cx /\ y.shp = x.shp /\ y.comp = "full"
               /\ y.cells = Iota(Len(st.bufs[y.b].v))
     [] A.op = "wrap" ->
-         /\ IsLeaf(st, A.x) /\ A.how \in {"tensor", "discr", "array_wrap"}
+         /\ IsLeaf(st, A.x) /\ A.how \in {"tensor", "discr", "array_wrap", "data_ptr"}
          /\ (A.ord # "N" => st.bufs[x.b].lay # "?")
          /\ (A.how = "array_wrap" => A.ord = "N" /\ x.dt = "same" /\ x.ty = "arr")
+         \* [S.pointer]: the pointer of a whole contiguous array of the right dtype, order as the memory is laid out
+         /\ (A.how = "data_ptr" => /\ A.ord \in {"C", "F"} /\ x.dt = "same" /\ x.comp = "full"
+                                   /\ x.cells = Iota(Len(st.bufs[x.b].v)) /\ Len(x.cells) >= 1
+                                   /\ Contig(st.bufs, x, A.ord))
     [] A.op = "tensor" -> IsLeaf(st, A.x) /\ x.ty = "elem" /\ x.sk = "discr"
     \* x.space.element(f) for the constant function f = c
     [] A.op = "sample" -> /\ IsLeaf(st, A.x) /\ x.ty = "elem" /\ x.sk = "discr" /\ x.dt = "same"
@@ -449,7 +479,7 @@ LeafGet(st, ti, idx) ==
       S == Sel(t.shp, idx)
       vals == LET v == LeafVal(st.bufs, t) IN [k \in 1..Len(S.pos) |-> v[S.pos[k]]]
   IN  IF S.shp = <<>> THEN Res(st, RScalar(vals[1]))
-      ELSE IF t.ty = "elem" /\ t.sk = "discr" THEN Res(st, RVal(vals))          \* [discr getitem]: unspec
+      ELSE IF t.ty = "elem" /\ (t.sk = "discr" \/ S.arr) THEN Res(st, RVal(vals))   \* [discr getitem], index arrays: unspec
       ELSE IF S.adv THEN LET s1 == Fresh(st, t, vals, S.shp) IN Res(s1, RNew(Len(s1.objs)))
       ELSE Res(AddObj(st, [t EXCEPT !.cells = [k \in 1..Len(S.pos) |-> t.cells[S.pos[k]]], !.shp = S.shp,
                                     !.src = ti, !.spos = S.pos]),
@@ -505,13 +535,14 @@ Step(st, A) ==
          LET r == DeepCopy(st, A.x, IF A.how = "astype_other" THEN (IF x.dt = "same" THEN "other" ELSE "same") ELSE "keep")
          IN Res(r.st, RNew(r.id))
     [] A.op = "asarray" ->
-         IF x.k = "leaf" THEN Res(AddObj(st, [x EXCEPT !.ty = "arr", !.sk = "tensor", !.src = A.x,
+         IF x.k = "leaf" /\ A.how \in {"np.asarray(dtype=same)", "np.asarray(dtype=other)"} THEN Res(st, RVal(Val(st, A.x)))
+         ELSE IF x.k = "leaf" THEN Res(AddObj(st, [x EXCEPT !.ty = "arr", !.sk = "tensor", !.src = A.x,
                                                       !.spos = Iota(Len(x.cells))]), RNew(NewId(st)))
          ELSE Res(st, RVal(Val(st, A.x)))                                                        \* product: unspec
     [] A.op = "asarray_out" ->
          Res([st EXCEPT !.bufs = ObjWrite(st.bufs, st.objs, A.y, "all", Val(st, A.x))], RSame(A.y))
     [] A.op = "wrap" ->
-         LET sk == IF A.how = "array_wrap" THEN "tensor" ELSE A.how
+         LET sk == IF A.how \in {"array_wrap", "data_ptr"} THEN "tensor" ELSE A.how
              share == x.dt = "same" /\ (A.ord = "N" \/ Contig(st.bufs, x, A.ord))
          IN  IF share THEN Res(AddObj(st, [x EXCEPT !.ty = "elem", !.sk = sk, !.src = A.x, !.spos = Iota(Len(x.cells))]),
                                RNew(NewId(st)))
@@ -588,11 +619,12 @@ DocShare(st, A) ==
              t == st.objs[d.o]
          IN  IF t.k = "leaf" THEN
                (IF Sel(t.shp, d.idx).shp = <<>> THEN "none"                              \* scalar
-                ELSE IF t.ty = "elem" /\ t.sk = "discr" THEN "unspec"                    \* "values : Tensor"
+                ELSE IF t.ty = "elem" /\ (t.sk = "discr" \/ Sel(t.shp, d.idx).arr) THEN "unspec"   \* "values : Tensor" / index arrays
                 ELSE IF Sel(t.shp, d.idx).adv THEN "copy" ELSE "view")                   \* [T.getitem]
              ELSE (IF d.idx[1].k = "list" THEN "unspec" ELSE "view")                     \* [P.*]
     [] A.op = "copy" -> "copy"                                                           \* [T.copy]
-    [] A.op = "asarray" -> IF x.k = "leaf" THEN "view" ELSE "unspec"                     \* [T.asarray]
+    [] A.op = "asarray" -> IF x.k = "leaf" /\ A.how \notin {"np.asarray(dtype=same)", "np.asarray(dtype=other)"}
+                             THEN "view" ELSE "unspec"                                 \* [T.asarray]; __array__(dtype): silent
     [] A.op = "wrap" -> IF x.dt = "same" /\ (A.ord = "N" \/ Contig(st.bufs, x, A.ord)) THEN "view" ELSE "copy"   \* [S.element]
     [] A.op = "tensor" -> "view"
     [] A.op = "sample" -> "copy"
